@@ -47,6 +47,7 @@ func (f *Func) Root() *Func {
 
 // Prog is the loaded, type-checked program.
 type Prog struct {
+	verbatimVisiting map[types.Object]bool
 	Fset             *token.FileSet
 	Pkgs             []*packages.Package // root packages (non-test)
 	Ice              *packages.Package
@@ -114,6 +115,11 @@ func Load(dir string, env []string, overlay map[string][]byte, patterns ...strin
 			continue
 		}
 		for _, e := range pk.Errors {
+			// an in-memory transformation (helper inlining) may remove the last use of an import: that is
+			// not an error of the program under analysis, and the type information is complete all the same
+			if overlay != nil && strings.Contains(e.Msg, "imported") && strings.Contains(e.Msg, "not used") {
+				continue
+			}
 			errs = append(errs, e.Error())
 		}
 		if pk.TypesInfo == nil || pk.Types == nil {
